@@ -49,6 +49,7 @@ def coverage(prop, executed, rejected, tier):
         "item_families": dict(families),
         "fragment_levels_histogram": {k[7:]: int(v) for k, v in sorted(total.items()) if k.startswith("levels:")},
         "items_with_composition_oracle": int(total.get("composition_items", 0)),
+        "items_where_readers_disagree_with_generator_intent": int(total.get("admission_mismatch", 0)),
         "items_resolved_with_legacy_false": int(total.get("items_label_insensitive_convention", 0)),
         "heavy_atoms_in_composition_items": int(total.get("composition_atoms", 0)),
         "constructor_driver_paths": {k[5:]: int(v) for k, v in sorted(total.items()) if k.startswith("path:")},
